@@ -135,6 +135,9 @@ class Monitor(object):
             ctx.count('judged.no-weight-label')
             if code != e and not code.startswith(e):
                 ctx.violation('specific:other-event-for-unweighted-label', case, e, code)
+            elif re.search(r'\d', code):
+                # the table reports no weight for this label: a code that carries one contradicts it
+                ctx.violation('specific:weight-invented-for-label-without-tabulated-weight', case, e, code)
             return
         # weight parsed back from the code with an independent mini-parser
         m = re.match(r'^(SP|DT|HT|JT|WT)(\d+(?:\.\d+)?)(K?)$', code)
@@ -210,6 +213,18 @@ def run_shard(ctx, spec):
             for ag in labels:
                 attach.call(mon.spec, e, g, ag)
                 attach.call(mon.weight, e, g, ag)
+    # history: the same questions again in a shuffled order, each asked twice in a row and once more after an
+    # unrelated one (a remembered "last answer" or memo must not leak from one triple to the next)
+    triples = [(e, g, ag) for e in THROWS for g in ('M', 'F') for ag in labels]
+    rnd.shuffle(triples)
+    prev = None
+    for t in triples:
+        attach.call(mon.spec, *t)
+        attach.call(mon.spec, *t)
+        if prev is not None:
+            attach.call(mon.spec, *prev)
+        prev = t
+        ctx.count('eval.repeated-triple')
     mon.check_masters()
     # non-throw codes pass through
     cm = sys.modules['athlib.codes']
